@@ -226,6 +226,14 @@ def cases(seed, tier):
         P2 = [float(P1[k] + L * d[k]) for k in range(3)]
         N = [3, 4, 5][i % 3] if i < 9 else rng.randint(3, hi)
         add("cylinder", {"P1": P1, "P2": P2, "radius": r, "N": N, "fill_caps": i % 2 == 0}, axis=ax)
+    # very short cylinders (end points less than 1e-6 apart, e.g. one edge of a tiny polyline cylindrified) along each axis direction
+    for i, ax in enumerate(["x", "-x", "y", "z", "-z", "x"] * rep):
+        d = np.array({"x": (1, 0, 0), "-x": (-1, 0, 0), "y": (0, 1, 0), "z": (0, 0, 1), "-z": (0, 0, -1)}[ax], float)
+        L = 10 ** rng.uniform(-9, -6.2)
+        r = L * 10 ** rng.uniform(-1, 1)
+        P1 = [0.0, 0.0, 0.0] if i % 2 else [float(L * rng.randint(-5, 5)) for _ in range(3)]
+        P2 = [float(P1[k] + L * d[k]) for k in range(3)]
+        add("cylinder", {"P1": P1, "P2": P2, "radius": r, "N": rng.randint(3, 12), "fill_caps": i % 2 == 0}, axis=ax.lstrip("-") if ax != "-z" else "-z")
     # ---- rings ------------------------------------------------------------------------
     for i in range(110 * rep):
         N = [3, 4, 5, 6][i % 4] if i < 16 else rng.randint(3, hi)
